@@ -150,7 +150,7 @@ def canon(e):
     if k == 'index':
         b, i = canon(e[1]), canon(e[2])
         return None if b is None or i is None else f'{b}[{i}]'
-    if k == 'call' and e[1] in ('len', 'unwrap', 'clone', 'unwrap_or', 'number_of_nodes'):
+    if k == 'call' and e[1] in ('len', 'unwrap', 'clone', 'unwrap_or', 'number_of_nodes', 'get_node_degree'):
         b = canon(e[2])
         if b is None:
             return None
@@ -276,12 +276,6 @@ SITES = [
     ('C11', 'transitivityValue', 'src/algorithms/cluster/mod.rs', r'false => Ok\((triangles / contri)\),', 0, [('triangles', 'triangles', 'rat'), ('contri', 'contri', 'rat')], 'rat'),
     ('C11', 'trianglesValue', 'src/algorithms/cluster/mod.rs', r'\.map\(\|item\| \(item\.node_name, (item\.number_of_triangles / 2)\)\)', 0,
      [('item.number_of_triangles', 'ntri', 'nat')], 'nat'),
-    ('C11', 'squareValue', 'src/algorithms/cluster/square.rs', r'true => \(v, (clustering_v as f64 / potential as f64)\),', 0,
-     [('clustering_v', 'clusteringV', 'nat'), ('potential', 'potential', 'nat')], 'rat'),
-    # ---- C18: eigenvector start value and stopping test ----
-    ('C18', 'eigStart', 'src/algorithms/centrality/eigenvector.rs', r'\.map\(\|n\| \(n\.name\.clone\(\), (1\.0 / nnodes as f64)\)\)', 0, [('nnodes', 'nnodes', 'nat')], 'rat'),
-    ('C18', 'eigConverged', 'src/algorithms/centrality/eigenvector.rs', r'if (y < \(nnodes as f64 \* _tolerance\)) \{', 0,
-     [('y', 'y', 'rat'), ('nnodes', 'nnodes', 'nat'), ('_tolerance', 'tol', 'rat')], 'bool'),
 ]
 
 
